@@ -245,6 +245,19 @@ var c13ExprCtx = []struct{ name, pre, post string }{
 	{"compound assignment right side", "y += ", ";"},
 	{"expression statement", "", ";"},
 	{"range end", "y = 1 .. (", ");"},
+	// places a compiler might not look at: entries of a hash literal that a later entry with
+	// the same key replaces, the value of a switch that has no cases, a callee
+	{"value of the first of two equal hash keys", "y = {\"k\": ", ", \"k\": 3};"},
+	{"value of the second of two equal hash keys", "y = {\"k\": 3, \"k\": ", "};"},
+	{"value among three equal hash keys", "y = {\"k\": 1, \"k\": ", ", \"k\": 3, \"j\": 4};"},
+	{"key written twice, first", "y = {", ": 1, c2: 2};"},
+	{"key written twice, second", "y = {c2: 1, ", ": 2};"},
+	{"value of a switch without cases", "switch (", ") { default { y = 1; } }"},
+	{"callee", "y = (", ")(3);"},
+	{"element of an array that is indexed at once", "y = [c1, ", "][0];"},
+	{"argument of a call whose result is dropped", "len(", ");"},
+	{"condition that is constant false and", "if (false && ", ") { y = 1; }"},
+	{"value after a return in the same block", "if (c1) { return 1; y = ", "; }"},
 }
 
 func c13(c *ev.Ctx) {
